@@ -26,3 +26,33 @@ package packets
 //@   ensures [C22] hdrlen: result == nil ==> int(hdrLenOf(h.pktLength)) == hdrOnWire(buf)
 //@   ensures [C20,C22] type: result == nil ==> h.pktType == buf[hdrOnWire(buf)-1]
 //@   ensures [C20,C22] length: result == nil ==> h.pktLength == ite(buf[0] == 1, be16(buf, 1), uint16(buf[0]))
+
+// ---- C21 ----
+//@ inline NewHeader
+//@ inline (*Header).PackToBuffer
+//@ inline EncodeUint16
+
+//@ func (*Header).SetVarPartLength
+//@   nopanic [C21]
+//@   assigns h.pktLength
+//@   ensures [C21] short: length <= 253 ==> h.pktLength == length + 2
+//@   ensures [C21] long: length >= 254 && length <= 65531 ==> h.pktLength == length + 4
+
+//@ func (*Header).Unpack
+//@   ensures [C21] accepts: len(buf) >= 2 && (buf[0] != 1 || (len(buf) >= 4 && be16(buf, 1) > 255)) ==> result == nil
+
+//@ func EncodeShortTopic
+//@   nopanic [C21]
+//@   ensures [C21] two: len(topic) == 2 ==> result == (uint16(topic[0]) << 8) | uint16(topic[1])
+//@ func DecodeShortTopic
+//@   nopanic [C21]
+//@   ensures [C21] name: len(result) == 2 && result[0] == uint8(topicAlias >> 8) && result[1] == uint8(topicAlias)
+
+// short-topic bijection (ghost lemma functions in zz_lemmas_verif.go)
+//@ func lemmaShortTopicIDRoundtrip
+//@   nopanic [C21]
+//@   ensures [C21] id_roundtrip: result == id
+//@ func lemmaShortTopicNameRoundtrip
+//@   nopanic [C21]
+//@   requires [C21] two_bytes: len(name) == 2
+//@   ensures [C21] name_roundtrip: result == name
